@@ -302,4 +302,83 @@ theorem scan_from_lower_bound_exact (a b : Int) : ∀ (l : List Item), Sorted l 
           simp [inRange]; intro; omega
         simp [hxb, hx, hall]
 
+/-! ### the transcribed binary search -/
+
+/-- Go's `sort.Search` as transcribed: for a monotone predicate it returns the least index where the
+    predicate holds (or `n`). -/
+theorem sortSearchAux_spec (f : Nat → Bool) (n : Nat)
+    (hmono : ∀ a b, a ≤ b → b < n → f a = true → f b = true) :
+    ∀ (fuel i j : Nat), i ≤ j → j ≤ n → j - i < fuel →
+      (∀ x, x < i → f x = false) → (∀ x, j ≤ x → x < n → f x = true) →
+      i ≤ sortSearchAux f fuel i j ∧ sortSearchAux f fuel i j ≤ j ∧
+      (∀ x, x < sortSearchAux f fuel i j → f x = false) ∧
+      (∀ x, sortSearchAux f fuel i j ≤ x → x < n → f x = true)
+  | 0, i, j, _, _, hf, _, _ => by omega
+  | fuel + 1, i, j, hij, hjn, hf, hlo, hhi => by
+    unfold sortSearchAux
+    by_cases hlt : i < j
+    · simp only [hlt, if_true]
+      by_cases hfh : f ((i + j) / 2) = true
+      · simp only [hfh, Bool.not_true, Bool.false_eq_true, if_false]
+        have ih := sortSearchAux_spec f n hmono fuel i ((i + j) / 2) (by omega) (by omega) (by omega) hlo
+          (fun x hx hxn => hmono _ _ hx hxn hfh)
+        exact ⟨ih.1, by omega, ih.2.2.1, ih.2.2.2⟩
+      · have hfh' : f ((i + j) / 2) = false := by simpa using hfh
+        simp only [hfh', Bool.not_false, if_true]
+        have ih := sortSearchAux_spec f n hmono fuel ((i + j) / 2 + 1) j (by omega) hjn (by omega)
+          (fun x hx => by
+            cases hfx : f x with
+            | false => rfl
+            | true => exact absurd (hmono x ((i + j) / 2) (by omega) (by omega) hfx) (by simp [hfh']))
+          hhi
+        exact ⟨by omega, ih.2.1, ih.2.2.1, ih.2.2.2⟩
+    · simp only [hlt, if_false]
+      have : i = j := by omega
+      subst this
+      exact ⟨Nat.le_refl _, Nat.le_refl _, hlo, hhi⟩
+
+theorem sortSearch_spec (f : Nat → Bool) (n : Nat) (hmono : ∀ a b, a ≤ b → b < n → f a = true → f b = true) :
+    sortSearch n f ≤ n ∧ (∀ x, x < sortSearch n f → f x = false) ∧
+      (∀ x, sortSearch n f ≤ x → x < n → f x = true) := by
+  have h := sortSearchAux_spec f n hmono (n + 1) 0 n (Nat.zero_le _) (Nat.le_refl _) (by omega) (fun x hx => by omega)
+    (fun x hx hxn => by omega)
+  exact ⟨h.2.1, h.2.2.1, h.2.2.2⟩
+
+
+/-- inside a node whose occupied slots are key-sorted, the transcribed binary search of `find` /
+    `getIndexToInsertTo` returns the lower bound of `k`: every slot before it has a smaller key, every
+    occupied slot from it on has a key `≥ k`. -/
+theorem node_search_lower_bound (nd : Node) (k : Int) (hc : nd.count ≤ nd.slots.size)
+    (hs : nd.items.Pairwise (fun a b => a.key ≤ b.key)) :
+    let i := sortSearch nd.count (fun i => decide ((nd.slot i).key ≥ k))
+    i ≤ nd.count ∧ (∀ x, x < i → (nd.slot x).key < k) ∧ (∀ x, i ≤ x → x < nd.count → k ≤ (nd.slot x).key) := by
+  have hitem : ∀ x, x < nd.count → nd.items[x]? = some (nd.slot x) := by
+    intro x hx
+    have hx' : x < nd.slots.size := by omega
+    simp [Node.items, Node.slot, hx, Array.getD, hx']
+  have hmono : ∀ a b, a ≤ b → b < nd.count →
+      (fun i => decide ((nd.slot i).key ≥ k)) a = true → (fun i => decide ((nd.slot i).key ≥ k)) b = true := by
+    intro a b hab hb ha
+    simp only [ge_iff_le, decide_eq_true_eq] at ha ⊢
+    rcases Nat.lt_or_ge a b with hlt | hge
+    · have hlen : nd.items.length = nd.count := by simp [Node.items]; omega
+      have := (List.pairwise_iff_getElem.mp hs) a b (by omega) (by omega) hlt
+      have ha' := hitem a (by omega)
+      have hb' := hitem b hb
+      rw [List.getElem?_eq_getElem (by omega)] at ha' hb'
+      simp only [Option.some.injEq] at ha' hb'
+      rw [ha', hb'] at this
+      omega
+    · have : a = b := by omega
+      subst this; exact ha
+  have h := sortSearch_spec _ nd.count hmono
+  refine ⟨h.1, ?_, ?_⟩
+  · intro x hx
+    have := h.2.1 x hx
+    simp only [ge_iff_le, decide_eq_false_iff_not] at this
+    omega
+  · intro x hx hxc
+    have := h.2.2 x hx hxc
+    simpa using this
+
 end Sop.BTree
